@@ -23,8 +23,9 @@ import Blots.Lemmas.DisplayExact
   What is NOT proved (and is false of the code on the pinned tree):
     * `display_accuracy_statement` — fewer than one unit of error in the 15th significant
       digit on the `fraction` path.  The path computes ⌊log10|x|⌋ with the float `log10`,
-      which returns k for some doubles a few ulps below 10^k (e.g. bits 412e847ffffffff4 =
-      999999.9999999986 ↦ "1,000,000", 1.397 units off).  The harness's exact referee finds
+      which returns k for doubles up to a few dozen ulps below 10^k, k = 6..15 (e.g. bits
+      412e847ffffffff4 = 999999.9999999986 ↦ "1,000,000", 1.397 units off; 41cdcd64ffffffec =
+      999999999.9999976 ↦ "1,000,000,000", 2.38 units off).  The harness's exact referee finds
       these (key `c20.accuracy`).  The `…_partial` theorem below is the part of the accuracy
       claim that holds unconditionally: zero error on the integer path.
 -/
